@@ -51,24 +51,29 @@ def nalType265 (k : NalConsts) (t : Nat) (f : Flags) : Flags :=
   else if t = k.pps265 then { f with pps := true }
   else f
 
-/-- The aggregation-packet loop of `getPalyloadType` (both codecs).  `none` = an index out of
-    range, i.e. a Go panic.  `fuel` bounds the iterations (each one advances `off` by ≥ 3). -/
+/-- The aggregation-packet loop of `getPalyloadType` (both codecs), with its bounds checks: a
+    truncated unit ends the scan with the flags collected so far.  The result is an `Option` only
+    so that an index out of range (a Go panic) would be representable; with the bounds checks
+    present no such index exists.  `fuel` bounds the iterations (each advances `off` by ≥ 3). -/
 def aggScan (typeOf : UInt8 → Nat) (upd : Nat → Flags → Flags) (pl : List UInt8) :
     Nat → Nat → Flags → Option Flags
   | 0, _, f => some f
   | fuel + 1, off, f =>
-    match pl[off]?, pl[off + 1]? with
-    | some hi, some lo =>
-      let nalSize := hi.toNat * 256 + lo.toNat
-      if nalSize < 1 then some f
-      else
-        match pl[off + 2]? with
-        | some h =>
-          let f' := upd (typeOf h) f
-          let off' := off + 2 + nalSize
-          if off' ≥ pl.length then some f' else aggScan typeOf upd pl fuel off' f'
-        | none => none
-    | _, _ => none
+    if off + 2 > pl.length then some f                      -- truncated size field
+    else
+      match pl[off]?, pl[off + 1]? with
+      | some hi, some lo =>
+        let nalSize := hi.toNat * 256 + lo.toNat
+        if nalSize < 1 then some f
+        else if off + 2 ≥ pl.length then some f             -- truncated unit
+        else
+          match pl[off + 2]? with
+          | some h =>
+            let f' := upd (typeOf h) f
+            let off' := off + 2 + nalSize
+            if off' ≥ pl.length then some f' else aggScan typeOf upd pl fuel off' f'
+          | none => none
+      | _, _ => none
 
 /-- H264Cache.getPalyloadType -/
 def classify264 (k : NalConsts) (pl : List UInt8) : Option Flags :=
